@@ -132,6 +132,7 @@ theorem unit_pow_in_sync (pre : Prefixes K) (t : Lut K) (u z : UnitV K) (p : Rat
     (su : InSync pre t u) (h : u.pow p = .ok z) : InSync pre t z := by
   simp only [UnitV.pow] at h
   split at h; · contradiction
+  split at h; · contradiction
   cases h
   exact denote_pow P laws pre t u.expr p _ _ hpos hc su
 
